@@ -62,11 +62,12 @@ BoxBlock(w, p) ==
 NaiveBlock(w, p) == {t \in BoxBlock(w, p) : WFv(w, t)}
 
 \* range of field f of the set t when it alone is corrupted
+\* (the whole range of the box, plus the negated value and, for generators, the congruent values outside 0..p-1)
 FieldRange(w, t, f) ==
-  IF f = 1 THEN 0..MaxP
-  ELSE IF f = 2 THEN 0..MaxQ
-  ELSE IF f = 3 /\ w.fam \in {"dlog", "com"} THEN 0..MaxK
-  ELSE GRange(t[1])
+  IF f = 1 THEN 0..MaxP \cup {0 - t[1]}
+  ELSE IF f = 2 THEN 0..MaxQ \cup {0 - t[2]}
+  ELSE IF f = 3 /\ w.fam \in {"dlog", "com"} THEN 0..MaxK \cup {0 - t[3]}
+  ELSE GRange(t[1]) \cup {0 - t[f], t[f] - t[1], t[f] + t[1]}
 NbrAcc(w, t, f) == {x \in FieldRange(w, t, f) : WFv(w, [t EXCEPT ![f] = x])}
 
 \* classes with a CheckElement(): all test a^q = 1 (mod p), 0 < a < p; the QR class tests the Jacobi symbol
